@@ -30,8 +30,8 @@ CHECKS["C25"] = dict(
                "negative durations and a clock that runs backwards are not generated",
     design=[dict(spec="MCBlocklist.tla", cfg="MCBlocklist.cfg", cfg_thorough="MCBlocklist_thorough.cfg", workers=8, timeout=3000)],
     gen=dict(
-        quick=[dict(mode="edges", spec="BlocklistGen.tla", cfg="BlocklistGenEdges.cfg", depth=14, max=700, name="edges"),
-               dict(mode="sim", spec="BlocklistGen.tla", cfg="BlocklistGenSim.cfg", depth=24, num=8, max=120, name="walks")],
+        quick=[dict(mode="edges", spec="BlocklistGen.tla", cfg="BlocklistGenEdges.cfg", depth=14, max=520, name="edges"),
+               dict(mode="sim", spec="BlocklistGen.tla", cfg="BlocklistGenSim.cfg", depth=24, num=8, max=80, name="walks")],
         thorough=[dict(mode="edges", spec="BlocklistGen.tla", cfg="BlocklistGenEdgesT.cfg", depth=18, max=6000, name="edges", timeout=3000),
                   dict(mode="sim", spec="BlocklistGen.tla", cfg="BlocklistGenSim.cfg", depth=40, num=40, max=600, name="walks", timeout=3000)]),
     judge=dict(spec="BlocklistTrace.tla", cfg="BlocklistTrace.cfg"), judge_timeout=3600, driver_timeout=3000,
